@@ -77,10 +77,21 @@ def syntax_positions(segnode):
     return s
 
 
+def is_body(r):
+    return r.node.id not in ENVELOPE and not isinstance(r.node, _FakeNode)
+
+
+def prev_real(doc, i):
+    j = i - 1
+    while j > 0 and isinstance(doc.recs[j].node, _FakeNode):
+        j -= 1
+    return doc.recs[j]
+
+
 def element_sites(doc, want):
     """yield (rec index, element node, ele_pos, sub_pos, current value) for body segments"""
     for i, r in enumerate(doc.recs):
-        if r.node.id in ENVELOPE:
+        if not is_body(r):
             continue
         for k in r.node.children:
             cur = r.vals[k.seq - 1] if k.seq <= len(r.vals) else ''
@@ -314,7 +325,7 @@ class _K(object):
 
     @staticmethod
     def too_many_elements(rng, doc):
-        cands = [i for i, r in enumerate(doc.recs) if r.node.id not in ENVELOPE and r.node.children]
+        cands = [i for i, r in enumerate(doc.recs) if is_body(r) and r.node.children]
         if not cands:
             return None
         i = rng.choice(cands)
@@ -330,7 +341,7 @@ class _K(object):
     def too_many_components(rng, doc):
         cands = []
         for i, r in enumerate(doc.recs):
-            if r.node.id in ENVELOPE:
+            if not is_body(r):
                 continue
             for k in r.node.children:
                 if k.kind == 'comp' and k.usage != 'N' and k.seq <= len(r.vals) and isinstance(r.vals[k.seq - 1], list) and any(x != '' for x in r.vals[k.seq - 1]):
@@ -348,7 +359,7 @@ class _K(object):
 
     @staticmethod
     def syntax(rng, doc):
-        cands = [i for i, r in enumerate(doc.recs) if r.node.id not in ENVELOPE and r.node.syntax]
+        cands = [i for i, r in enumerate(doc.recs) if is_body(r) and r.node.syntax]
         rng.shuffle(cands)
         for i in cands[:20]:
             r = doc.recs[i]
@@ -420,11 +431,11 @@ class _K(object):
         # pick a segment from the last third whose id occurs nowhere in the map outside its own loop subtree start...
         j = rng.randint(a + (b - a) * 2 // 3, b - 1)
         r = doc.recs[j]
-        if r.node.id in ENVELOPE or r.node.id in ('HL', 'LX', 'CLM', 'BHT'):
+        if not is_body(r) or r.node.id in ('HL', 'LX', 'CLM', 'BHT'):
             return None
         # only if no node with this id is reachable from the insertion point (otherwise it would simply match there)
         i = a + 2
-        prev = doc.recs[i - 1]
+        prev = prev_real(doc, i)
         if gen_doc.first_match(prev.node, r.node.id, r.vals) is not None:
             return None
         d = clone(doc)
@@ -440,7 +451,7 @@ class _K(object):
         cands = []
         for i, r in enumerate(doc.recs):
             n = r.node
-            if n.id in ENVELOPE or n.usage != 'R' or n.id in ('HL', 'LX', 'BHT'):
+            if not is_body(r) or n.usage != 'R' or n.id in ('HL', 'LX', 'BHT'):
                 continue
             if n.parent.kind == 'loop' and n.parent.first_seg() is n:
                 continue            # deleting a loop's first segment changes how the rest is matched
@@ -451,8 +462,10 @@ class _K(object):
             if i + 1 >= len(doc.recs):
                 continue
             nxt = doc.recs[i + 1]
+            if isinstance(nxt.node, _FakeNode):
+                continue
             # after deletion the following segment must still match its own node first, starting from the predecessor
-            prev = doc.recs[i - 1]
+            prev = prev_real(doc, i)
             if gen_doc.first_match(prev.node, nxt.node.id, nxt.vals) is not nxt.node:
                 continue
             cands.append(i)
@@ -472,7 +485,7 @@ class _K(object):
         cands = []
         for i, r in enumerate(doc.recs):
             n = r.node
-            if n.id in ENVELOPE or n.id in ('HL', 'LX', 'BHT', 'CLM'):
+            if not is_body(r) or n.id in ('HL', 'LX', 'BHT', 'CLM'):
                 continue
             mx = n.max_repeat()
             if mx > 3:
